@@ -1018,6 +1018,23 @@ def build_table(I):
         rx = deref(I, st, a[0])
         return recv_logic(I, st, rx.fields[0])
 
+    @reg("Duration::from_millis", "Duration::from_secs", "Duration::from_micros", "Duration::from_nanos", "Duration::from_secs_f64", "Duration::new")
+    def m_std_duration(I, st, a, c):
+        return Opaque(("std-duration", c.split("::")[-1], a[0] if a else None))
+
+    @reg("Receiver::recv_timeout", "Receiver::try_recv", "Receiver::recv_deadline")
+    def m_recv_timeout(I, st, a, c):
+        # timing is not modelled: besides every outcome of a blocking recv(), the timeout (or "empty") may fire whenever the queue is empty
+        # and somebody could still send - i.e. a worker may be arbitrarily slow (the property quantifies over delays at every point)
+        rx = deref(I, st, a[0])
+        ch = I.read(st, rx.fields[0])
+        q, senders, alive = ch.fields
+        acts = recv_logic(I, st, rx.fields[0])
+        acts = [x for x in acts if not (isinstance(x[1], tuple) and x[1][0] == "panic" and "DEADLOCK" in str(x[1][1]))]
+        if not q.items and senders > 0:
+            acts = acts + ret(mk_enum("Result", "Err", (Struct("RecvTimeoutError", ()),)))
+        return acts
+
     @reg("Sender::send")
     def m_send(I, st, a, c):
         tx = deref(I, st, a[0])
